@@ -23,7 +23,7 @@ from props import common
 
 ID = "C18"
 LEVEL = "exploration"
-QUICK_RUNS = 7000
+QUICK_RUNS = 5000
 QUICK_BUDGET_S = 50.0
 THOROUGH_RUNS = 10 ** 9
 BATCH = 100
@@ -110,7 +110,7 @@ def _logical_datum(ch):
 
 def build(ch, F):
     """Returns (family, base_env, task op lists)."""
-    fam = ch.weighted([8, 4, 8, 4, 4, 6, 4, 1])   # the deep family costs ~1 s per run: about 2.5 % of runs
+    fam = ch.weighted([12, 6, 12, 6, 6, 9, 6, 1])   # the deep family costs ~1 s per run: under 2 % of runs
     E = {}
     tasks = []
     ntasks = 3 if ch.chance(20) else 2
